@@ -1143,7 +1143,14 @@ pub fn leapgap_zone(rng: &mut Rng) -> Option<Built> {
         let (l, _) = *rng.pick(&leaps);
         let w = *rng.pick(&[1i64, 2, 5, 60, 1800, 3600, 7200]);
         let a = (rng.range(-48, 48) * 900) as i32;
-        let (o1, o2) = if rng.chance(3, 4) { (a, a + w as i32) } else { (a + w as i32, a) };
+        let (o1, o2) = match rng.below(8) {
+            // offsets at the ends of i32: the candidate instants lie 68 years from the searched fields
+            0 => (0, -i32::MAX),
+            1 => (i32::MAX, 0),
+            2 => (-i32::MAX, -i32::MAX + w as i32),
+            3 | 4 => (a + w as i32, a),
+            _ => (a, a + w as i32),
+        };
         let k = match rng.below(6) {
             0 => 0,
             1 => 1,
@@ -1159,7 +1166,11 @@ pub fn leapgap_zone(rng: &mut Rng) -> Option<Built> {
             0 => None,
             _ => Some(TransitionRule::Fixed(t2)),
         };
-        let raw = RawZone { transitions: vec![(t - 20_000_000, 0), (t, 1)], types: vec![t1, t2], leaps, rule };
+        let rule = if rng.chance(1, 2) { rule } else { Some(TransitionRule::Fixed(t1)).filter(|_| rule.is_some()) };
+        let third = if rule == Some(TransitionRule::Fixed(t2)) { None } else { Some((t + rng.range(1, 40_000_000), 0usize)) };
+        let mut transitions = vec![(t - 20_000_000, 0), (t, 1)];
+        transitions.extend(third);
+        let raw = RawZone { transitions, types: vec![t1, t2], leaps, rule };
         let b = Built::from_raw(raw);
         if b.zref().is_ok() {
             return Some(b);
